@@ -599,6 +599,47 @@ M("c14-comment-swallows-crlf-line", "C14", "src/ckl/lexer.py",
                     state = 0''', "a comment ended by CRLF continues on the next line")
 
 
+# ---- C10
+M("c10-stack-not-unwound", "C10", "src/ckl/nodes.py",
+  '''        try:
+            moduleEnv = self.loadModule(
+                environment, modules, moduleidentifier, modulefile
+            )
+        finally:
+            environment.popModuleStack()''', '''        moduleEnv = self.loadModule(
+            environment, modules, moduleidentifier, modulefile
+        )
+        environment.popModuleStack()''', "module stack kept after a failed load (the original defect)")
+M("c10-cache-before-evaluate", "C10", "src/ckl/nodes.py",
+  '''            node = ckl.parser.parse_script(modulesrc, "mod:"+modulefile[0:-4])
+            node.evaluate(moduleEnv)
+            modules[moduleidentifier] = moduleEnv''',
+  '''            node = ckl.parser.parse_script(modulesrc, "mod:"+modulefile[0:-4])
+            modules[moduleidentifier] = moduleEnv
+            node.evaluate(moduleEnv)''', "module cached before its code ran")
+M("c10-fresh-env-per-call", "C10", "src/ckl/interpreter.py",
+  '''        if environment is None:
+            env = self.environment''', '''        if environment is None:
+            env = self.environment.newEnv()''', "every interpret call gets a child environment")
+M("c10-shared-module-cache", "C10", "src/ckl/functions.py",
+  '''        if self.parent is None:
+            self.modules = dict()
+            self.modulestack = []''', '''        if self.parent is None:
+            self.modules = globals().setdefault("_SHARED_MODULES", dict())
+            self.modulestack = []''', "module cache shared by all interpreters")
+M("c10-session-rollback", "C10", "src/ckl/interpreter.py",
+  '''        try:
+            result = parse_script(script, filename).evaluate(env)''',
+  '''        snapshot = dict(env.map)
+        try:
+            try:
+                result = parse_script(script, filename).evaluate(env)
+            except CklRuntimeError:
+                env.map.clear()
+                env.map.update(snapshot)
+                raise''', "definitions of a failing call are rolled back")
+
+
 def run(cmd, cwd, env=None, timeout=3600):
     t0 = time.time()
     try:
